@@ -88,3 +88,18 @@ End CompE.
 Definition compileE (t : tree) : prog :=
   let code := compE (Z.of_nat (esize t) - 1) t 0 0 false [] fnone (root_idxE t 0) (-1) None in
   {| nodes := map fst code; parents := map snd code; maxStack := maxStack (compile t) |}.
+
+(* Compile's back end: the plain program, or the event-mode program under ReportEvent / Debug. The event-mode program
+   is the structural `compileE` (the one the C12 theorems are about; compared with Go's program field by field on every
+   case); `eventize (compile t)`, the transliteration of calAndSetEventNode, is kept as a cross-check (code 10). *)
+Definition compile_cfg (cfg : config) (t : tree) : prog :=
+  if events cfg then compileE t else compile t.
+
+(* Compile after optimisation: the capacity checks, then the program *)
+Definition compile_checked (cfg : config) (t : tree) : cerr + prog :=
+  match check t with
+  | inl e => inl e
+  | inr _ =>
+    let P := compile_cfg cfg t in
+    if event_max_nodes <? lenZ (nodes P) then inl (CTooManyEventNodes (lenZ (nodes P))) else inr P
+  end.
